@@ -8,7 +8,7 @@ CLAIMED = {
          'SiblingsConsistent/PositionConsistent hold.  One behaviour per distinct reachable state (thorough: also every path of '
          'length 2) is replayed on real plasTeX.DOM objects comparing childNodes, parentNode and text after every operation and '
          'all derived views at the end; seeded random edit sequences of length <= 40 on a pool of 10 nodes are validated by TLC '
-         'against DomTrace.tla with all invariants evaluated at every step.',
+         'against DomTrace.tla with all invariants evaluated at every step.  DomAttr.tla: normalize through document fragments held as attribute values (machine = attributes first, then the no-children guard, then children; rule = no adjacent text anywhere reachable), every tree of the bounded shape set replayed on real nodes built with append only.',
          'DESIGN.md#c06',
          'Trusted: TLC, the list model in Dom.tla, positional re-binding of the new text nodes that normalize creates. NF-DOM '
          'restricts arguments to detached nodes, unused fragments or same-parent moves as the property states.',
@@ -61,7 +61,7 @@ CLAIMED['C19'] = ('model_checking',
     'shapes.  Every enumerated test is concretised (\\equal, \\isodd, \\isundefined, \\boolean, \\lengthtest in mixed units and a '
     'length register, literals, \\value, macro-produced numbers, upper/lower-case operators, optional blanks) and run through the '
     'real parser comparing the processed branch and a then/else side-effect counter; seeded random trees of depth 3-5 are run on '
-    'the code and validated by TLC re-running the machine on exactly those tokens (IfThenTrace.tla).',
+    'the code and validated by TLC re-running the machine on exactly those tokens (IfThenTrace.tla).  The atom catalogue contains comparisons of equal lengths under <, > and =.',
     'DESIGN.md#c19',
     'Trusted: TLC, the denotation/spelling in IfThen.tla, the concretisation table in harness/drivers/c19.py.',
     TECH)
@@ -73,7 +73,7 @@ CLAIMED['C01'] = ('model_checking',
     'rule layer Lex (TeXbook ch. 8 with plasTeX\'s named deviations), CatOfClass, NoTwoPars, NeverStuck (no input makes it raise) '
     'and termination.  Every enumerated behaviour (about 0.5 M) is replayed on the real plasTeX.Tokenizer comparing every token '
     '(category, text) and the final state; seeded random strings up to 45 characters over a 43-character alphabet with random tables '
-    'and change schedules are tokenized by the real code and re-executed by TLC (TokenizerTrace.tla).',
+    'and change schedules are tokenized by the real code and re-executed by TLC (TokenizerTrace.tla).  The category tables given to TLC are computed by the rule "the last assignment to a character wins" from a fresh context (not read back from the context under test), after sending characters through other categories first; a disagreement is a violation (table:history).',
     'DESIGN.md#c01',
     'Trusted: TLC, the transcription of TeX\'s lexical rules into Lex, the projection. Category tables in the specification are read '
     'off the real Context after the same catcode() calls. NF-LEX exclusions: hex ^^ab; category 5 only for LF; named deviations '
@@ -212,7 +212,7 @@ CLAIMED['C13'] = ('model_checking',
     'file, in order, footnotes last), EveryWordOnceInOneFile, UnitsAtOrAboveLevelOwnFile, NamesDistinct.  Every emitted behaviour (quick: all '
     'with <= 2 units, 5000 sampled with 3) is rendered by the real Compile.run into a scratch directory: the set of html files, their names and '
     'the sequence of body/footnote markers per file must equal the specification; variants: book class (chapter level 0), XHTML renderer, split '
-    'level -10 and 6, a different bad-chars set, $title(1)/$num(2); every 16th document is rendered twice and compared.',
+    'level -10 and 6, a different bad-chars set, $title(1)/$num(2); every 16th document is rendered twice and compared.  Further variants: a bracket-less template (`index sect$num(4)`), footnotes with identical wording in several units.',
     'DESIGN.md#c13',
     'Trusted: TLC, Split.tla, the concretiser, marker extraction from html by tag stripping. Generated identifiers (a0000000012) are '
     'normalised in the run-twice comparison because C17 owns them.',
@@ -227,7 +227,7 @@ CLAIMED['C14'] = ('model_checking',
     'footnote pairing, and the home file of index links and citations are compared with the specification; on every output (plus variants: '
     'index + bibliography, toc-depth 0/1, toc-non-files, base-url, minimal theme, XHTML, theme extras copied) a link-closure pass checks that '
     'every non-external href/src names a produced file and an existing id, ids are unique per file and all pages are reachable from the '
-    'start page when the theme prints a table of contents.',
+    'start page when the theme prints a table of contents.  Further variants: base-url with a path and no trailing slash; documents whose units are equal as trees (same title and body, no label) with prev/next/up compared against the specification.',
     'DESIGN.md#c14',
     'Trusted: TLC, Split.tla, the concretiser, html.parser. Documents are rendered in an empty directory (a stale .paux of another run '
     'with the same labels changes hrefs; that is C03/C09 territory).',
